@@ -25,6 +25,8 @@ pub(crate) fn local_channel<T: ExchangeData>(
         NetworkReceiver {
             receiver_endpoint,
             receiver,
+            #[cfg(feature = "verif")]
+            verif_summarize: crate::verif::summarize::<T>,
         },
     )
 }
@@ -56,6 +58,10 @@ pub(crate) struct NetworkReceiver<In: Send + 'static> {
     /// The actual receiver where the users of this struct will wait upon.
     #[derivative(Debug = "ignore")]
     receiver: Receiver<NetworkMessage<In>>,
+    /// Function that summarizes a received message for the verification observer.
+    #[cfg(feature = "verif")]
+    #[derivative(Debug = "ignore")]
+    verif_summarize: fn(&NetworkMessage<In>) -> Vec<crate::verif::ElemInfo>,
 }
 
 impl<In: Send + 'static> NetworkReceiver<In> {
@@ -65,6 +71,14 @@ impl<In: Send + 'static> NetworkReceiver<In> {
         message: Result<NetworkMessage<In>, E>,
     ) -> Result<NetworkMessage<In>, E> {
         message.map(|message| {
+            #[cfg(feature = "verif")]
+            if crate::verif::enabled() {
+                crate::verif::recv_done(
+                    self.receiver_endpoint,
+                    message.sender,
+                    (self.verif_summarize)(&message),
+                );
+            }
             get_profiler().items_in(
                 message.sender,
                 self.receiver_endpoint.coord,
@@ -76,16 +90,22 @@ impl<In: Send + 'static> NetworkReceiver<In> {
 
     /// Receive a message from any sender.
     pub fn recv(&self) -> Result<NetworkMessage<In>, RecvError> {
+        #[cfg(feature = "verif")]
+        let _verif_guard = crate::verif::recv_guard(self.receiver_endpoint);
         self.profile_message(self.receiver.recv())
     }
 
     /// Receive a message from any sender without blocking.
     pub fn try_recv(&self) -> Result<NetworkMessage<In>, TryRecvError> {
+        #[cfg(feature = "verif")]
+        let _verif_guard = crate::verif::recv_guard(self.receiver_endpoint);
         self.profile_message(self.receiver.try_recv())
     }
 
     /// Receive a message from any sender with a timeout.
     pub fn recv_timeout(&self, timeout: Duration) -> Result<NetworkMessage<In>, RecvTimeoutError> {
+        #[cfg(feature = "verif")]
+        let _verif_guard = crate::verif::recv_guard(self.receiver_endpoint);
         self.profile_message(self.receiver.recv_timeout(timeout))
     }
 
@@ -98,6 +118,13 @@ impl<In: Send + 'static> NetworkReceiver<In> {
         &self,
         other: &NetworkReceiver<In2>,
     ) -> SelectResult<NetworkMessage<In>, NetworkMessage<In2>> {
+        #[cfg(feature = "verif")]
+        if crate::verif::enabled() {
+            crate::verif::select_enter(self.receiver_endpoint, other.receiver_endpoint);
+            let result = self.receiver.select(&other.receiver);
+            self.verif_select_done(other, &result);
+            return result;
+        }
         self.receiver.select(&other.receiver)
     }
 
@@ -107,7 +134,39 @@ impl<In: Send + 'static> NetworkReceiver<In> {
         other: &NetworkReceiver<In2>,
         timeout: Duration,
     ) -> Result<SelectResult<NetworkMessage<In>, NetworkMessage<In2>>, RecvTimeoutError> {
+        #[cfg(feature = "verif")]
+        if crate::verif::enabled() {
+            crate::verif::select_enter(self.receiver_endpoint, other.receiver_endpoint);
+            let result = self.receiver.select_timeout(&other.receiver, timeout);
+            match &result {
+                Ok(result) => self.verif_select_done(other, result),
+                Err(_) => crate::verif::select_done(
+                    self.receiver_endpoint,
+                    other.receiver_endpoint,
+                    None,
+                    None,
+                ),
+            }
+            return result;
+        }
         self.receiver.select_timeout(&other.receiver, timeout)
+    }
+}
+
+#[cfg(feature = "verif")]
+impl<In: Send + 'static> NetworkReceiver<In> {
+    /// Report the outcome of a select to the verification observer.
+    fn verif_select_done<In2: ExchangeData>(
+        &self,
+        other: &NetworkReceiver<In2>,
+        result: &SelectResult<NetworkMessage<In>, NetworkMessage<In2>>,
+    ) {
+        let (a, b) = match result {
+            SelectResult::A(Ok(msg)) => (Some((msg.sender, (self.verif_summarize)(msg))), None),
+            SelectResult::B(Ok(msg)) => (None, Some((msg.sender, (other.verif_summarize)(msg)))),
+            _ => (None, None),
+        };
+        crate::verif::select_done(self.receiver_endpoint, other.receiver_endpoint, a, b);
     }
 }
 
@@ -134,6 +193,12 @@ enum SenderInner<Out: Send + 'static> {
 
 impl<Out: ExchangeData> NetworkSender<Out> {
     pub fn send(&self, message: NetworkMessage<Out>) -> Result<(), NetworkSendError> {
+        #[cfg(feature = "verif")]
+        let _verif_guard = crate::verif::send_guard(
+            &message,
+            self.receiver_endpoint,
+            matches!(self.sender, SenderInner::Mux(_)),
+        );
         get_profiler().items_out(
             message.sender,
             self.receiver_endpoint.coord,
